@@ -488,6 +488,20 @@ func runC16(r *engine.Run) {
 		})
 	}
 
+	// ---- join-requests whose correct MIC is 00000000 / ffffffff (witness.go): answered like any other
+	r.Part("A0/conspicuous-mic-values", uint64(len(witnessJoin))*2, func(c *engine.Case) {
+		w := witnessJoin[c.Index/2]
+		k := baseCase()
+		k.NwkKey, k.AppKey, k.DevEUI, k.JoinEUI, k.Nonce = witnessKey, C16KeysApp[0], w.devEUI, witnessJoinEUI, w.nonce
+		if c.Index%2 == 1 {
+			k.DL |= 0x80
+		}
+		if phy := k.PHY(); len(phy) < 4 || !bytes.Equal(phy[len(phy)-4:], w.mic[:]) {
+			r.HarnessError("witness join-request: the request built by the harness carries MIC %x, expected %x", phy[len(phy)-4:], w.mic[:])
+			return
+		}
+		judge(c, k, C16Handler([]C16Case{k}, nil))
+	})
 	// ---- A: crypto tuples
 	spA := (&engine.Space{}).Dim("kind", 4).Dim("nwkkey{A,B,all-zero}", 3).Dim("appkey{A,B,all-zero}", 3).Dim("deveui{A,B,unknown}", 3).Dim("joineui", 2).Dim("nonce", 3).Dim("netid", 2).Dim("optneg", 2).Dim("echo tuple", 2)
 	r.PartDims("A/crypto-tuples", spA.Desc(), spA.N(), func(c *engine.Case) {
@@ -763,12 +777,22 @@ func runC16(r *engine.Run) {
 		judge(c, k, C16Handler([]C16Case{k}, nil))
 	})
 	// ---- D: MIC bit flips
-	r.PartDims("D/mic-bit-flips", []string{"bit:32", "kind:4", "optneg:2"}, 32*4*2, func(c *engine.Case) {
+	r.PartDims("D/mic-bit-flips", []string{"bit:32", "kind:4", "optneg:2", "together with{nothing else, a 15-byte CFList, RxDelay 16, JoinNonce 2^24}"}, 32*4*2*4, func(c *engine.Case) {
 		k := baseCase()
 		k.MICFlip = int(c.Index % 32)
 		k.Kind = int(c.Index/32) % 4
-		if c.Index/128 == 1 {
+		if (c.Index/128)%2 == 1 {
 			k.DL |= 0x80
+		}
+		// a second defect in the same request: a join-request with a wrong MIC is answered MICFailed
+		// whatever else is wrong with it
+		switch c.Index / 256 {
+		case 1:
+			k.CFList = fillBytes(15, 0x18)
+		case 2:
+			k.RxDelay = 16
+		case 3:
+			k.JoinNonce = 1 << 24
 		}
 		judge(c, k, C16Handler([]C16Case{k}, nil))
 	})
